@@ -27,7 +27,22 @@ Record obs := Obs {
 }.
 Definition step_t : Type := op * err * list (N * raw_chan) * obs.
 (* validate-names flag, state before the first op, steps *)
-Definition case_t : Type := bool * obs * list step_t.
+Definition ccase_t : Type := bool * obs * list step_t.
+
+(* engine-level cases: ONE cesium engine on a memory file system, closed and reopened on the same
+   file system in the middle of the history (the in-memory cluster cannot reopen a node's engine) *)
+Inductive eop :=
+| ECreate (l : list (N * raw_echan))
+| EDelete (keys : list N)         (* DeleteChannels, the batch call the channel service uses *)
+| EDelete1 (k : N)                (* DeleteChannel *)
+| ERename (kn : list (N * string))
+| EReopen.
+(* operation, result class, engine listing afterwards *)
+Definition estep_t : Type := eop * err * list (N * raw_echan).
+
+Inductive case_t :=
+| CCluster (c : ccase_t)
+| CEngine (tr : list estep_t).
 
 Definition mk_chan (r : raw_chan) : chan :=
   match r with (n, l, d, i, k, x, v, t, e) => Chan n l d i k x v t e end.
@@ -74,8 +89,29 @@ Fixpoint mism_steps (validate : bool) (s : st) (tr : list step_t) : bool :=
       negb (bool_decide (er' = er) && bool_decide (ret_of ret' = sort_by_key ret) && same_obs s' ob)
       || mism_steps validate s' rest
   end.
+Definition estep (e : engine) (o : eop) : engine * err :=
+  match o with
+  | ECreate l => ts_create e ((fun kc => (kc.1, mk_echan kc.2)) <$> l)
+  | EDelete keys => ts_delete tree_fixed e keys
+  | EDelete1 k => ts_delete1 e k
+  | ERename kn => ts_rename e kn
+  | EReopen => (e, EOk)           (* every channel is described by its own meta file *)
+  end.
+Definition dump_engine (e : engine) : list (N * raw_echan) :=
+  sort_by_key ((fun kc => (kc.1, un_echan kc.2)) <$> map_to_list e).
+Fixpoint emism (e : engine) (tr : list estep_t) : bool :=
+  match tr with
+  | [] => false
+  | (o, er, lst) :: rest =>
+      let '(e', er') := estep e o in
+      negb (bool_decide (er' = er) && bool_decide (dump_engine e' = sort_by_key lst)) || emism e' rest
+  end.
+
 Definition mismatch (c : case_t) : bool :=
-  match c with (v, o0, tr) => mism_steps v (st_of o0) tr end.
+  match c with
+  | CCluster (v, o0, tr) => mism_steps v (st_of o0) tr
+  | CEngine tr => emism ∅ tr
+  end.
 
 (* ---- the monitor: the property on the IMPLEMENTATION's observations *)
 Definition okeys (o : obs) : list N :=
@@ -170,6 +206,23 @@ Fixpoint ok_steps (validate : bool) (seen : list N) (clean : bool) (before : obs
       ok_steps validate (seen ++ okeys ob ++ (fst <$> ret)) cons_now ob rest
   end.
 
+(* engine level, clause 5: a channel removed by a successful delete is listed by no later state of
+   the engine — in particular not after the engine is reopened on the same files *)
+Fixpoint eok (before : list (N * raw_echan)) (gone : list N) (tr : list estep_t) : bool :=
+  match tr with
+  | [] => true
+  | (o, er, lst) :: rest =>
+      let gone' :=
+        if is_ok er then
+          match o with
+          | EDelete keys => gone ++ filter (fun k => mem k (fst <$> before)) keys
+          | EDelete1 k => if mem k (fst <$> before) then gone ++ [k] else gone
+          | _ => gone
+          end
+        else gone in
+      forallb (fun k => negb (mem k (fst <$> lst))) gone' && eok lst gone' rest
+  end.
+
 (* which clause fails at which step (for replays): 1 returned keys, 2 reappearing key, 3 names,
    4 metadata = engines, 5 deleted channel still reachable; step 0 = initial state *)
 Fixpoint why_steps (validate : bool) (i : nat) (seen : list N) (clean : bool) (before : obs) (tr : list step_t)
@@ -194,18 +247,20 @@ Fixpoint why_steps (validate : bool) (i : nat) (seen : list N) (clean : bool) (b
   end.
 Definition why (c : case_t) : list (nat * nat) :=
   match c with
-  | (v, o0, tr) =>
+  | CCluster (v, o0, tr) =>
       (if v && negb (ok_names o0) then [(0%nat, 3%nat)] else []) ++
       (if ok_meta_engine o0 then [] else [(0%nat, 4%nat)]) ++
       why_steps v 1 (okeys o0) (ok_meta_engine o0) o0 tr
+  | CEngine tr => if eok [] [] tr then [] else [(0%nat, 5%nat)]
   end.
 
 Definition ok_C15 (c : case_t) : bool :=
   match c with
-  | (v, o0, tr) =>
+  | CCluster (v, o0, tr) =>
       (* the initial state (system channels created by the cluster itself) already obeys 3 and 4 *)
       (if v then ok_names o0 else true) && ok_meta_engine o0 &&
       ok_steps v (okeys o0) (ok_meta_engine o0) o0 tr
+  | CEngine tr => eok [] [] tr
   end.
 Definition violates (c : case_t) : bool := negb (ok_C15 c).
 
@@ -220,5 +275,13 @@ Fixpoint model_steps (validate : bool) (s : st) (tr : list step_t) :=
       let '(s', (er', ret')) := step tree_fixed validate s o in
       (er', ret_of ret', dump_tab s', dump_eng s', dump_ctr s', s_free s', s_amb s') :: model_steps validate s' rest
   end.
+Fixpoint emodel (e : engine) (tr : list estep_t) : list (err * list (N * raw_echan)) :=
+  match tr with
+  | [] => []
+  | (o, _, _) :: rest => let '(e', er') := estep e o in (er', dump_engine e') :: emodel e' rest
+  end.
 Definition model_dump (c : case_t) :=
-  match c with (v, o0, tr) => (why c, model_steps v (st_of o0) tr) end.
+  match c with
+  | CCluster (v, o0, tr) => (why c, inl (model_steps v (st_of o0) tr))
+  | CEngine tr => (why c, inr (emodel ∅ tr))
+  end.
